@@ -295,11 +295,11 @@ async def get_remote_to_remote_write_command(
 
 
 def get_tag(tokens: Iterable[Token]) -> str:
-    output_tag = "0"
+    output_tag = None
     for tag in [t.tag for t in tokens]:
-        if len(tag) > len(output_tag):
+        if output_tag is None or len(tag) > len(output_tag):
             output_tag = tag
-    return output_tag
+    return output_tag if output_tag is not None else "0"
 
 
 def make_future(obj: T) -> asyncio.Future[T]:
